@@ -2585,7 +2585,14 @@ class Array(Subconstruct):
             count = evaluate(self.count, context)
         except (KeyError, AttributeError):
             raise SizeofError("cannot calculate size, key not found in context", path=path)
-        return count * self.subcon._sizeof(context, path)
+        # which element is being sized is not known: a size that depends on this._index cannot be stated (an index found
+        # here belongs to an enclosing repetition, or is None while a lazy struct measures its members)
+        index = context.pop("_index", Ellipsis)
+        try:
+            return count * self.subcon._sizeof(context, path)
+        finally:
+            if index is not Ellipsis:
+                context["_index"] = index
 
     def _emitparse(self, code):
         return f"ListContainer(({self.subcon._compileparse(code)}) for i in range({self.count}))"
@@ -6258,7 +6265,14 @@ class LazyArray(Subconstruct):
                 count = count(context)
         except (KeyError, AttributeError):
             raise SizeofError("cannot calculate size, key not found in context", path=path)
-        return count * self.subcon._sizeof(context, path)
+        # which element is being sized is not known: a size that depends on this._index cannot be stated (an index found
+        # here belongs to an enclosing repetition, or is None while a lazy struct measures its members)
+        index = context.pop("_index", Ellipsis)
+        try:
+            return count * self.subcon._sizeof(context, path)
+        finally:
+            if index is not Ellipsis:
+                context["_index"] = index
 
 
 class LazyBound(Construct):
